@@ -99,7 +99,17 @@ def run(ctx):
         ctx.count_case(ln, nontrivial=len(ln.split()) >= 5)
     exe = build_driver(ctx)
     tr = ctx.path("bts.ndjson")
-    run_driver_sharded(ctx, exe, lines, tr, what="drv_btree", extra_args=["1", "0123", "0123456789"], header="P")
+    # the transition-cover tours keep the trees tiny (<= 4 entries per container): in the quick tier they run on 4 of the 10 configurations per flavour,
+    # everything else (walks, long histories, bulk loads) on all 10
+    nt = ctx.cov.get("tlc_tours", 0) if quick else 0
+    tr_a, tr_b = ctx.path("bts_a.ndjson"), ctx.path("bts_b.ndjson")
+    if nt:
+        run_driver_sharded(ctx, exe, lines[:nt], tr_a, what="drv_btree(tours)", extra_args=["1", "0123", "0358"], header="P")
+    run_driver_sharded(ctx, exe, lines[nt:], tr_b, what="drv_btree", extra_args=["1", "0123", "0123456789"], header="P")
+    with open(tr, "w") as f:
+        for part in ([tr_a] if nt else []) + [tr_b]:
+            if os.path.exists(part):
+                f.write(read_text(part))
     exe_a = build_driver(ctx, asan=True)
     sub = rng.sample(lines, max(1, len(lines) // (4 if quick else 1)))
     run_driver_sharded(ctx, exe_a, sub, "/dev/null", what="drv_btree(asan)", extra_args=["1", "0123", "0123456789"], header="P",
